@@ -81,6 +81,37 @@ theorem gen_programs (date : List Char) (hh mm ss sss : Nat) (h1 : hh < 100) (h2
   simp [evalPieces, Gen.C19.prog_datetime, Gen.C19.prog_timestamp, Gen.C19.prog_logtime,
     Gen.C19.prog_ymdhms, a, b, c, d]
 
+/-- **whole helper bodies, interpreted**: the `/ %` chain of each string helper as it stands in the
+    source (variables by name) followed by its writes, run with the transcribed pad functions and
+    formats, yields — for every elapsed time `time - BASE_TIME` and whatever the table holds
+    (`dateOf idx`) — exactly the model's string: table entry `elapsed / day`, and the
+    `hmsOf (elapsed % day)` fields through mk2/mk3/%02d.  Renaming variables keeps this green;
+    dividing by the wrong constant, reading the wrong variable or dropping a `%` step breaks it. -/
+theorem gen_bodies (dateOf : Nat → List Char) (el : Nat) :
+    let h := hmsOf (el % 86400000)
+    evalBody (evalPad Gen.C19.mk2) (evalPad Gen.C19.mk3) dateOf Gen.C19.chain_datetime Gen.C19.outs_datetime el =
+      some (dateOf (el / 86400000) ++ ' ' :: mk2 h.hh ++ ':' :: mk2 h.mm ++ ':' :: mk2 h.ss) ∧
+    evalBody (evalPad Gen.C19.mk2) (evalPad Gen.C19.mk3) dateOf Gen.C19.chain_timestamp Gen.C19.outs_timestamp el =
+      some (dateOf (el / 86400000) ++ ' ' :: mk2 h.hh ++ ':' :: mk2 h.mm ++ ':' :: mk2 h.ss ++ '.' :: mk3 h.sss) ∧
+    evalBody (evalPad Gen.C19.mk2) (evalPad Gen.C19.mk3) dateOf Gen.C19.chain_logtime Gen.C19.outs_logtime el =
+      some (mk2 h.hh ++ ':' :: mk2 h.mm ++ ':' :: mk2 h.ss ++ '.' :: mk3 h.sss) ∧
+    evalBody (evalPad Gen.C19.mk2) (evalPad Gen.C19.mk3) dateOf Gen.C19.chain_ymdhms Gen.C19.outs_ymdhms el =
+      some (dateOf (el / 86400000) ++ mk2 h.hh ++ mk2 h.mm ++ mk2 h.ss) ∧
+    evalBody (evalPad Gen.C19.mk2) (evalPad Gen.C19.mk3) dateOf Gen.C19.chain_hhmmss Gen.C19.outs_hhmmss el =
+      some (pad0 2 h.hh ++ pad0 2 h.mm ++ pad0 2 h.ss) ∧
+    evalBody (evalPad Gen.C19.mk2) (evalPad Gen.C19.mk3) dateOf Gen.C19.chain_hhmm Gen.C19.outs_hhmm el =
+      some (pad0 2 h.hh ++ pad0 2 h.mm) := by
+  intro h
+  have a := gen_mk2 (el % 86400000 / 3600000) (by omega)
+  have b := gen_mk2 (el % 3600000 / 60000) (by omega)
+  have c := gen_mk2 (el % 60000 / 1000) (by omega)
+  have d := gen_mk3 (el % 1000) (by omega)
+  simp [h, hmsOf, MILLIS_PER_HOUR, MILLIS_PER_MINUTE, MILLIS_PER_SECOND, evalBody, evalAssigns, evalOuts, Env.get,
+    evalFmt, isDig,
+    Gen.C19.chain_datetime, Gen.C19.outs_datetime, Gen.C19.chain_timestamp, Gen.C19.outs_timestamp,
+    Gen.C19.chain_logtime, Gen.C19.outs_logtime, Gen.C19.chain_ymdhms, Gen.C19.outs_ymdhms,
+    Gen.C19.chain_hhmmss, Gen.C19.outs_hhmmss, Gen.C19.chain_hhmm, Gen.C19.outs_hhmm, a, b, c, d]
+
 /-- format and Parse use the same seven letters with the model's widths -/
 theorem gen_widths : Gen.C19.formatWidths = Gen.C19.parseWidths ∧ Gen.C19.formatWidths.length = 7 ∧
     (Gen.C19.formatWidths.map Prod.fst).Nodup ∧
